@@ -155,6 +155,11 @@ func genMixedOp(r *RNG, origin string, idPrefix string, store *[]M) M {
 		if r.P(1, 3) {
 			s.Dev[pick(r, regDeviations[:16])] = true
 		}
+		if r.P(1, 3) {
+			// a per-call policy: it must not outlive the call (a later or concurrent ceremony without options sees the defaults)
+			s.VerifyOpt = pick(r, [][]M{{{"formats": subsetOf(sevenFormats, r.Intn(128))}}, {{"types": subsetOf(sixTypes, r.Intn(64))}},
+				{{"formats": subsetOf(sevenFormats, 1<<uint(r.Intn(7)))}, {"types": subsetOf(sixTypes, r.Intn(64))}}, {{"formats": []string{}}}})
+		}
 		b := buildRegistration(r, s)
 		return b.Op()
 	}
